@@ -61,4 +61,26 @@ Section T.
       gen_grid_gaussian, gen_grid_uniform, gen_grid_rectangle, gen_grid_lognormal, gen_grid_schulz, gen_grid_boltzmann, inlimits;
       cbn [add sub mul div opp one absv leb ROps]; rewrite ?maxT_Rmax, ?tiny_eq; reflexivity.
   Qed.
+
+  (* Dispersion.get_weights: width convention and degenerate case; Dispersion._linspace *)
+  Theorem code_resolve_is_model relative width center :
+    gen_resolve relative width center = resolve ROps relative width center.
+  Proof. destruct relative; reflexivity. Qed.
+  Theorem code_lin_is_model c s nsig npts lb ub : gen_lin c s nsig npts lb ub = lin ROps c s nsig npts lb ub.
+  Proof.
+    unfold gen_lin, lin, inlimits. cbn [add sub mul opp leb ROps].
+    replace ((- nsig) * s) with (- nsig * s) by ring. reflexivity.
+  Qed.
+  (* the whole value grid of get_weights, assembled from the translated pieces, is the model's [values] *)
+  Theorem code_values_is_model d relative center0 width nsig npts lb ub :
+    (let '(c, s) := gen_resolve relative width center0 in
+     if gen_degenerate s npts then fst (gen_degenerate_result c lb ub) else gen_grid d c s nsig npts lb ub) =
+    values ROps (sqrt 3) 1e-8 d relative center0 width nsig npts lb ub.
+  Proof.
+    unfold values. rewrite code_resolve_is_model. destruct (resolve ROps relative width center0) as [c s].
+    unfold gen_degenerate, gen_degenerate_result. cbn [eqb leb zero ROps].
+    destruct (Reqb s 0 || (npts <? 2)%nat).
+    - destruct (Rleb lb c && Rleb c ub); reflexivity.
+    - apply code_grid_is_model.
+  Qed.
 End T.
